@@ -785,3 +785,40 @@ def c02_tpm(tier, rng):
                 "obligation": "C02.tpm_rescaling", "inputs": {"seed": base + k}, "observed": p[:3], "required": "columns rescaled to 10^6, ratios kept",
                 "replay_call": "contracts.c_counters:replay_tpm"}]}
     return {"cases": n, "bound": "%d random count tables" % n, "violations": [], "samples": [{"seed": base}]}
+
+
+# ---- the gene-level assignment type a read is counted under in the gene tables ------------------------------------------------------------------
+@finite("C02.gene_assignment_type", ["C02"], note="the real ReadAssignment constructor for every assignment type and every shape of the matched "
+        "isoforms' genes (none, one gene, one gene twice, two genes): the gene-level type stays in the same consistency class as the "
+        "assignment type (an inconsistent read is never counted as a consistent one at gene level, and vice versa) and is ambiguous exactly "
+        "when the matches name more than one gene")
+def c02_gene_type(tier, rng):
+    ia = native.repo_import("src/isoform_assignment.py")
+    T = ia.ReadAssignmentType
+    obl = dis = 0
+    viol = []
+    shapes = {"none": [], "one": ["g1"], "one_twice": ["g1", "g1"], "two": ["g1", "g2"], "two_and_repeat": ["g1", "g2", "g1"]}
+    for t in T:
+        for name, genes in shapes.items():
+            obl += 1
+            ms = [ia.IsoformMatch(ia.MatchClassification.undefined if hasattr(ia.MatchClassification, "undefined") else list(ia.MatchClassification)[0],
+                                  g, "%s.t%d" % (g, k)) for k, g in enumerate(genes)]
+            ra = ia.ReadAssignment("r", t, ms)
+            g = ra.gene_assignment_type
+            many = len(set(genes)) > 1
+            problems = []
+            if g.is_inconsistent() != t.is_inconsistent() or g.is_consistent() != t.is_consistent():
+                problems.append("consistency class changes")
+            if t in (T.ambiguous, T.inconsistent_ambiguous):
+                if g.is_ambiguous() != many:
+                    problems.append("ambiguous at gene level = %s with %d distinct gene(s)" % (g.is_ambiguous(), len(set(genes))))
+            elif g != t:
+                problems.append("a non-ambiguous type is changed")
+            if problems:
+                viol.append({"obligation": "C02.gene_assignment_type.%s.%s" % (t.name, name), "inputs": {"assignment_type": t.name, "genes_of_matches": genes},
+                             "observed": "gene_assignment_type = %s (%s)" % (g.name, "; ".join(problems)),
+                             "required": "same consistency class as the assignment type; ambiguous iff more than one gene"})
+            else:
+                dis += 1
+    return {"obligations": obl, "discharged": dis, "violations": viol[:6], "cases": obl, "exhaustive": True,
+            "bound": "%d assignment types x %d gene shapes" % (len(list(T)), len(shapes)), "samples": [{"assignment_type": "inconsistent_ambiguous", "genes": ["g1", "g1"], "gene_type": "inconsistent"}]}
